@@ -25,10 +25,10 @@ MODS = {
 }
 DRIVERS = ["kernels"]
 STATED_NOT_PROVED = {
-    "C01": ["Primitiv.C01.Move.Adjoint.permute_dims_full (permute_dims_bw is the transpose of permute_dims_fw: reduces to the bijectivity of the mixed-radix re-encoding permJ)"],
-    "C02": ["Primitiv.C02.Move.Fwd.permute_dims_spec_full (permute_dims against the multi-index specification Spec.Move.IsPermuted)"],
-    "C03": ["Primitiv.C03.Move.Batch.bwd_law_full (data-level fold law for every backward kernel at once; proved: Batch.bwd_fold, Batch.slice_bw_fold, Batch.pick_bw_fold)"],
-    "C11": ["Primitiv.C11.Move.Kernel.permute_dims_in_bounds_full (write indices of permute_dims_fw / read indices of permute_dims_bw in bounds, every output element written once; proved: the sequential side, Kernel.permute_dims_fw_reads_in_bounds_partial)"],
+    "C01": [],
+    "C02": [],
+    "C03": ["Primitiv.C03.Move.Batch.bwd_law_full (data-level fold law for every backward kernel at once; proved: the generic Batch.bwd_fold and its instances Batch.slice_bw_fold, Batch.pick_bw_fold)"],
+    "C11": [],
     "C10": [],
     "C08": [],
 }
@@ -1027,6 +1027,10 @@ def run_family(chk, prop):
         if "C02" in props and k in ("valid", "companion") and not crash and impl != e:
             flagged.add(line)
             rep(classify(prop, line, impl, e), "%s: implementation returns `%s`, the specification says `%s`" % (line, impl[:200], e[:200]), line)
+        if "C01" in props and "C02" not in props and k in ("valid", "companion") and not crash and impl != e \
+                and line.split()[1].endswith("_bw"):
+            flagged.add(line)
+            rep(classify(prop, line, impl, e), "%s: the backward kernel returns `%s`, the transpose of the forward kernel gives `%s`" % (line, impl[:200], e[:200]), line)
         if "C10" in props and k == "malformed" and not crash and impl != e:
             flagged.add(line)
             rep(classify(prop, line, impl, e), "%s: implementation returns `%s`, the specification says `%s`" % (line, impl[:200], e[:200]), line)
